@@ -10,6 +10,8 @@ FUNC_NAMES = ["myf", "calc", "jetFn", "scale_it", "combo", "fX", "vecOf"]
 METHOD_OBJECTS = ["obj", "self_", "obj_j", "the_jet", "pt", "x"]
 RESULT_NAMES = ["result", "res", "r_out", "result"]
 TYPES = ["double", "float", "int", "bool"]
+# object types: value, pointer, const pointer (canonical spelling: parse_type / str round trip is the identity)
+OBJ_TYPES = ["Trk", "Trk*", "const Trk*", "xAOD::TrackParticle*", "const xAOD::TrackParticle*"]
 INCLUDES = ["a.h", "b/c.h", "TVector2.h", "vector", "math.h"]
 # non-ASCII characters for which Python's \w and the identifier class agree (both yes: η φ µ é ١ ; both no: € → «)
 UNI_WORD = ["η", "φ", "µ", "é", "١"]
@@ -74,8 +76,8 @@ def spec(rng, name: str | None = None, allow_coll: bool = True) -> Dict[str, Any
     if n >= 2 and rng.random() < 0.04:
         params[1] = params[0]  # duplicate parameter name: the first binding wins
     mo = rng.choice(METHOD_OBJECTS) if rng.random() < 0.35 else None
-    is_coll = allow_coll and rng.random() < 0.15
-    ty = rng.choice(TYPES)
+    is_coll = allow_coll and rng.random() < 0.2
+    ty = rng.choice(OBJ_TYPES) if rng.random() < (0.5 if is_coll else 0.08) else rng.choice(TYPES)
     result = rng.choice(RESULT_NAMES)
     return {
         "name": name or rng.choice(FUNC_NAMES), "includes": rng.sample(INCLUDES, rng.choice([0, 1, 1, 2])), "args": params,
@@ -253,6 +255,8 @@ def query_case(rng, backend: str, builtins: List[List[Any]]) -> Dict[str, Any]:
 
     ncols = rng.choice([1, 1, 2, 2, 3])
     cols = [call(0) for _ in range(ncols)]
+    for c in cols:  # how a collection of objects is consumed: counted, or its elements' pt() summed (element access . or ->)
+        c["wrap"] = rng.choice(["count", "sum"])
     if rng.random() < 0.15 and cols:
         cols.append(cols[0])  # the same call text twice: two call sites, two blocks, two variables
     if wrong_left[0]:
